@@ -228,33 +228,52 @@ func vC44_step() {
 	vAssume(vC44_invOrder(x) && vC44_invBinding(x, 0) && vC44_invBinding(x, 1) && vC44_invPending(x))
 
 	// ---- the message
+	// case split: 0 RegisterConsumer, 1 Request, 2 Ack, 3 Produced, 4 StoredAck, 5 tick, 6 Terminated (sender symbolic);
+	// Request / Ack are split by who sends them so that the sender is a concrete PID in each job:
+	// 1 / 2 from w1's controller, 7 / 8 from w2's controller, 9 / 10 from anybody else (producer, a later incarnation, a stranger)
+	kind, senderClass := vCase("kind"), -1
+	switch kind {
+	case 1, 2:
+		senderClass = 0
+	case 7, 8:
+		kind, senderClass = kind-6, 1
+	case 9, 10:
+		kind, senderClass = kind-8, 2
+	}
 	sender := prod
 	senderWorker := -1 // which worker's *current* controller sends
-	switch vChoose("sender", 6) {
-	case 1:
+	switch senderClass {
+	case 0:
 		sender, senderWorker = ctl[0], 0
-	case 2:
+	case 1:
 		sender, senderWorker = ctl[1], 1
-	case 3:
-		sender = ctlNew[0]
-	case 4:
-		sender = ctlNew[1]
-	case 5:
-		sender = other
+	case 2:
+		switch vChoose("sender", 4) {
+		case 1:
+			sender = ctlNew[0]
+		case 2:
+			sender = ctlNew[1]
+		case 3:
+			sender = other
+		}
+	default:
+		switch vChoose("sender", 6) {
+		case 1:
+			sender, senderWorker = ctl[0], 0
+		case 2:
+			sender, senderWorker = ctl[1], 1
+		case 3:
+			sender = ctlNew[0]
+		case 4:
+			sender = ctlNew[1]
+		case 5:
+			sender = other
+		}
 	}
 	var msg any
 	var reqConfirmed, reqUpTo int64
 	authentic, legal := false, false
 	acceptNow := false
-	// case split: 0 RegisterConsumer, 1 Request, 2 Ack, 3 Produced, 4 StoredAck, 5 tick, 6 Terminated;
-	// 7 / 8 = Request / Ack that is NOT (authenticated and within bounds), 1 / 2 = the ones that are
-	kind, honoured := vCase("kind"), true
-	if kind == 7 {
-		kind, honoured = 1, false
-	}
-	if kind == 8 {
-		kind, honoured = 2, false
-	}
 	switch kind {
 	case 0: // RegisterConsumer: the system authenticates the sender as the companion of worker endpoint w (or refuses)
 		m, err := commands.VRegisterConsumer(vRD_str2("nonceIsCurrent", "N", "N2"))
@@ -290,7 +309,6 @@ func vC44_step() {
 				legal = legal && reqUpTo >= reqConfirmed && reqUpTo <= reqConfirmed+MaxReliableFlowControlWindow
 			}
 		}
-		vAssume(honoured == (authentic && legal))
 	case 3: // Produced
 		msg = &Produced{sessionID: vRD_str2("sessionIsCurrent", "S", "S0"), token: vRD_str2("tokenIsCurrent", "T", "T0"),
 			messageID: vC44_ids[vChoose("producedJob", nJobs)], payload: &vRDMsg{data: []byte{vNondetByte("producedPayload")}}}
